@@ -271,6 +271,30 @@ claim('C07',
       '{a,i,mr,pi,qm,qg,v} from the EBB command reference.',
       'DESIGN.md section 3, C07')
 
+claim('C15',
+      'abstract interpretation with type tags (version / str / num) of the ordering tests; '
+      'typestate interpretation of EBB3.connect from four entry states with fault injection '
+      '(path conditions as the verification evidence); gate table via forked min_version answers',
+      'Decides: D1 in ebb_serial.min_version and EBB3.min_version the ordering test compares two '
+      'packaging.version objects (a comparison of text or of a number collapsed from the '
+      'components is reported), the board against parse(threshold), answering True exactly on '
+      'board >= threshold (equality included; operand order and negated forms normalised); both '
+      'layers obtain the board version as parse(strip(split(reply,"Firmware Version ",1)[1])). '
+      'D2 every path of connect that returns True (entered not connected: fresh or previously '
+      'connected object, with or without an earlier error, named or first-found port) carries '
+      'the assumptions "a reply of this handshake contained EBB" and "the version parsed from '
+      'this handshake >= MIN_VERSION_STRING" - a stale version from an earlier connection does '
+      'not count; connect never raises on the paths the statement covers; an earlier error is '
+      'never cleared. D3 every other path returns False with an error recorded. D4 on those '
+      'paths the only bytes written are at most two v<CR> probes and the port is closed when '
+      'the device was not verified. D5 the five legacy gates (SR>=2.6.0, QC>=2.2.3, QT/ST/RB>='
+      '2.5.5) hand their command to the transport only when min_version answered True, nothing '
+      'for False or None. Not decided: that packaging orders release segments numerically '
+      '(library, trusted); serial faults after successful verification (observation only).',
+      'Trusted: Python ast, vf/interp.py, vf/ebb3.py, vf/legacy.py, packaging.version, the gate '
+      'thresholds from the docstrings.',
+      'DESIGN.md section 3, C15')
+
 
 def build():
     checks = []
@@ -319,7 +343,7 @@ def build():
         'not_applicable': na,
         'notes': 'Static analysis only: no repo code is imported or executed by any check; exit 0 '
                  '= all obligations discharged, exit 1 = VIOLATION lines, exit 2 = ANALYSIS-ERROR '
-                 '(cannot conclude; never a violation). Eight genuine defects found by the rules '
+                 '(cannot conclude; never a violation). Nine genuine defects found by the rules '
                  'were repaired by fix: commits in /repo and are recorded in known_findings.json.',
     }
     with open(os.path.join(VERIF, 'MANIFEST.json'), 'w') as fh:
